@@ -217,6 +217,10 @@ func execKAReconn(f []string) Result {
 	sc.mu.Unlock()
 	if closedEarly || c0.cli.Err() != nil {
 		r.Props = append(r.Props, viol("C13", "healthy-connection-dropped", "connection closed although every ping was answered (Err=%v)", c0.cli.Err()))
+		if e := c0.cli.Err(); e != nil {
+			// C16: "Err() stays nil for a healthy connection … also when the connection is managed by the reconnecting client"
+			r.Props = append(r.Props, viol("C16", "err-on-healthy-first", "Err() of the first, healthy connection (every ping answered, interval %v, timeout %v) is %v", interval, timeout, e))
+		}
 		return r
 	}
 	// the peer goes silent
